@@ -347,7 +347,7 @@ func (c *wsClient) exchange(raw string, id string, sentinelID string, async bool
 		if sentinelDone && (res.Completed || (len(res.Payloads) == 0 && !async)) {
 			break
 		}
-		m, code, err := c.read(5 * time.Second)
+		m, code, err := c.read(10 * time.Second)
 		if err != nil {
 			res.Kind = "timeout"
 			return
@@ -377,7 +377,7 @@ func (c *wsClient) exchange(raw string, id string, sentinelID string, async bool
 		// keeps serving what follows (the sentinel) until the close handshake is through: the close
 		// frame comes after the sentinel's answer.  Nothing else is pending, so wait for it briefly;
 		// the connection is not reused after a silent message either way.
-		_, code, err := c.read(time.Second)
+		_, code, err := c.read(5 * time.Second)
 		c.dead = true
 		if err == nil && code != 0 {
 			res.Kind, res.Code = "closed", code
